@@ -160,7 +160,7 @@ def _replace_value(root, d, field, newval):
     return False
 
 
-VERSION_PAIRS = [("1", "1.12"), ("1.12", "1.12.1"), ("1.12", "1.11"), ("2", "1"), ("2.4.3", "2.4"), ("2.4.3", "2.4.3.8606"), ("*", "3.3.5"), ("3.3", "3.2"), ("1.12.1", "1.12.2"), ("1.2", "1.12")]
+VERSION_PAIRS = [("1", "1.12"), ("2.4.3", "2.4.3.8606"), ("1.12", "1.11"), ("1.12", "1.12.1"), ("2", "1"), ("2.4.3", "2.4"), ("1.12.1.5875", "1.12.1.6005"), ("3.3.5.12340", "3.3.5.12340"), ("*", "3.3.5"), ("3.3", "3.2"), ("1.12.1", "1.12.2"), ("1.2", "1.12")]
 
 
 def run(tier, seed):
